@@ -174,9 +174,16 @@ def gen_schedule(specs):
     out = ["#[allow(non_snake_case, unused_variables, unused_imports)]", "mod %s {" % name, "    use super::*;"]
     for i, t in enumerate(tasks):
         out.append("    " + gen_task(i, t).replace("\n", "\n    "))
+    def req_mask(t):
+        return sum(1 << COMP_OBJ[c] for k, c in t["views"] if k in "rw")
+    def entry_mask(t):
+        return sum(1 << COMP_OBJ[c] for k, c in t["ent"] if k != "id")
+    def filt(t):
+        f = t["filter"]
+        return (0, 0) if f is None else ((1 if f[0] == "h" else 2), COMP_OBJ[f[1:]])
     descs = ", ".join(
-        'TaskDesc { label: "%s", access: vec![%s], par: %s }'
-        % (t["spec"], ", ".join("(%d, %s)" % (o, "true" if w else "false") for o, w in access(t)), "true" if t["par"] else "false")
+        'TaskDesc { label: "%s", access: vec![%s], par: %s, req: %d, filt: (%d, %d), entry: %d }'
+        % (t["spec"], ", ".join("(%d, %s)" % (o, "true" if w else "false") for o, w in access(t)), "true" if t["par"] else "false", req_mask(t), filt(t)[0], filt(t)[1], entry_mask(t))
         for t in tasks
     )
     def tw(i, t):
@@ -263,7 +270,11 @@ def pools():
     P["PX1"] = [[a, b] for a in kx for b in kx]
     P["PX2"] = [[x, y, z] for x in ["wB", "rB"] for y in ["rA", "-/e=rA", "oA/e=oA"] for z in ["wA", "-/e=wA", "pA"]]
     P["PX3"] = [[a, b] for a in ["rA/e=rA", "oA/e=oA", "rB/e=wA", "wB/e=rA", "wA/e=rB"] for b in ["rA", "wA"]] + [[b, a] for a in ["rA/e=rA", "oA/e=oA", "rB/e=wA", "wB/e=rA", "wA/e=rB"] for b in ["rA", "wA"]]
-    P["PQ"] = [["rB/e=pA", "wA"], ["wA", "wB/e=rA"], ["wB/e=rA/par", "wA"], ["wA/r=wR0", "wA/r=wR0"], ["rA/r=wR0", "wA/r=rR0"], ["wA", "rB/e=oA/par"]]
+    P["PQ"] = [["rB/e=pA", "wA"], ["wA", "wB/e=rA"], ["wB/e=rA/par", "wA"], ["wA/r=wR0", "wA/r=wR0"], ["rA/r=wR0", "wA/r=rR0"], ["wA", "rB/e=oA/par"],
+               # a conflict with a task that is not the most recently added one; a resource task that matches no table
+               # two tasks of the next stage both started early (disjoint filters)
+               ["wA,wB", "wA/f=nB", "wB/f=nA"],
+               ["wA", "rB", "wA"], ["-/r=wR0", "rA", "-/r=wR0"], ["rC/r=wR0", "wA", "wB/r=wR0"], ["rC/r=rR0", "wA", "wC/r=wR0", "rB"]]
     P["PC"] = [
         ["wC", "rA", "wA"], ["wB,rC", "rA", "wA,wC"], ["wC/f=hA", "wC/f=nA", "rC"], ["wB", "wC", "rA", "wA"],
     ]
